@@ -268,6 +268,8 @@ def run(tier, seed):
         rep.add(item["group"], item["recs"], _Info(item["info"]), key_prefix=item["harness"] + item["group"].split()[0],
                 replay=std_replay(BUILD, BS, BS + "." + item["harness"], item["params"]))
     inner = [(c, n, s, 1) for c in (4, 5, 6, 7, 8) for (n, s) in ((3, 0), (3, 1), (2, 1), (0, 0), (1, 1))]
+    # every other case of the window dispatcher msmInnerPointProj, chunk processor summarised
+    inner += [(c, n, s, 1) for c in (9, 10, 11, 12, 13, 14, 15, 16) for (n, s) in ((1, 1), (2, 0))] + [(c, 1, 1, 1) for c in (20, 21, 22)]
     if tier == "quick":
         inner += [(4, 2, 1, 0), (5, 1, 0, 0)]
     else:
@@ -278,7 +280,8 @@ def run(tier, seed):
         for tasks in ([-1, 1, 16, 65, 128] if tier == "quick" else [-1, 0, 1, 2, 3, 16, 33, 64, 65, 128, 300, 1024]):
             me.append((n, n, tasks, 1, 16, 0))
     me += [(3, 2, 1, 1, 16, 0), (2, 3, 16, 0, 16, 0), (0, 1, 1, 1, 16, 0), (5, 5, 65, 0, 16, 3), (5, 5, 0, 1, 1, 0), (5, 5, 0, 1, 64, 5), (9, 9, 0, 0, 128, 0)]
-    rep.bounds = {"chunk processing/orchestration": "msmC4..msmC8 from SSA with real bucket arrays, %s, scalars fully symbolic < r" % inner,
+    rep.bounds = {"chunk processing/orchestration": "msmInnerPointProj dispatch and msmC<c> orchestration for every implemented c (4..16, 20, 21, 22) with the chunk processor summarised by its contract; "
+                  "msmC4..6 also with real bucket arrays; (c, n, split, summarised) in %s, scalars fully symbolic < r" % inner,
                   "digit partition": "every implemented window width c in %s, all scalars < r, per-chunk closed form" % [p[0] for p in part],
                   "MultiExp": "concrete sizes/configurations %d runs, scalars symbolic" % len(me),
                   "outside": "bucket accumulation for c >= 9; float cost model is executed concretely per configuration, not for all n"}
